@@ -334,3 +334,20 @@ Theorem api_empty_bytes_roundtrip :
      = Some (encode OtlpSchema m w).
 Proof. exact api_empty_bytes_roundtrip_l. Qed.
 Print Assumptions api_empty_bytes_roundtrip.
+
+(* ---- successive Marshal calls are independent ----------------------------------------------------------
+   Model.run_fresh: every call writes into a buffer of its own and hands it out.  For EVERY sequence of payloads
+   (any length, any encoder — protobuf or JSON, payload or wrapper), what the caller reads from the buffers it
+   kept, AFTER all the calls, is exactly the encodings of the payloads it passed, in order.  Case kinds 10 / 11
+   compare this with the implementation (outputs of several calls kept, read and decoded at the end). *)
+Theorem marshal_calls_independent : forall (A : Type) (enc : A -> bytes) vs,
+  observe (run_fresh enc vs) = map enc vs.
+Proof. intros A enc vs. apply marshal_calls_independent_l. Qed.
+Print Assumptions marshal_calls_independent.
+
+(* a marshaler that recycles its buffer (a pool whose buffer is returned to the caller) does not have the
+   property as soon as two payloads encode differently *)
+Theorem pooled_marshal_refuted : forall (A : Type) (enc : A -> bytes) a b,
+  enc a <> enc b -> observe (run_pooled enc [a; b]) <> map enc [a; b].
+Proof. intros A enc a b. apply pooled_marshal_refuted_l. Qed.
+Print Assumptions pooled_marshal_refuted.
